@@ -158,7 +158,7 @@ def field_table():
             kind = "call"
             shapes["canon"] = [f5[1]]
             shapes["alt"] = [PATHS[1]]
-            shapes["bad"] = [5, ["x"], "no_such_module_zz.func"]
+            shapes["bad"] = [5, ["x"], "no_such_module_zz.func", "os.path.no_such_function", "os.sep", "nodot", "docutils.nodes."]
         elif n in ("html_meta",):
             kind = "dictm"
             shapes["canon"] = [{}, {"a": "b"}]
